@@ -8,6 +8,7 @@ open ElaVerif.Irr Driver
     lihset <lih> <dposStart> <dposWork> <dpos> writes the fields
     lihstep <height>                           tryUpdateLastIrreversibleHeight + History.Commit → "<lih> <dposStart>"
     lihback <height>                           History.RollbackTo → "<lih> <dposStart>"
+    lihload                                    key frame Serialize → Deserialize, empty History → the four fields
 -/
 structure S30 where
   node : ElaVerif.Node.NState
@@ -32,6 +33,9 @@ def step30 (s : S30) : List String → S30 × String
         let h' := rollbackTo s.h ht
         ({ s with h := h' }, s!"{h'.st.lih} {h'.st.dposStart}")
       | none => (s, "bad-op")
+  | ["lihload"] =>
+    let h' := reload s.h
+    ({ s with h := h' }, s!"{h'.st.lih} {h'.st.dposStart} {h'.st.dposWork} {if h'.st.dpos then 1 else 0}")
   | toks =>
     let (n, out) := NodeSim.step s.node toks
     ({ s with node := n }, out)
